@@ -176,6 +176,7 @@ def gen_scenario(scen: Choices, cls, cfg):
     # shared-object arm: the operations of the run are applied in sequence to ONE grouping, under
     # the baseline and under the strategy alike (a dependence on the strategy that needs an earlier
     # call on the same object to show -- seeded change C03-i -- is invisible to fresh objects)
+    strategy_first = fault is None and scen.chance(1, 3)
     shared = fault is None and scen.chance(1, 3)
     if shared:
         # the history opens with an operation of any family (layout-changing ones are in the
@@ -187,7 +188,7 @@ def gen_scenario(scen: Choices, cls, cfg):
             if last["op"] in ops.BASIC and "mask" in last:
                 last["mask"] = gen.gen_mask(scen, ds, ("bool", "slice", "positions"))
             op_list.append(last)
-    return {"ds": ds, "sort": sort, "lay": lay, "st": st, "ops": op_list, "fault": fault, "shared": shared}
+    return {"ds": ds, "sort": sort, "lay": lay, "st": st, "ops": op_list, "fault": fault, "shared": shared, "strategy_first": strategy_first}
 
 
 def execute(sc, sched: Choices, cls, cfg):
@@ -243,6 +244,14 @@ def execute(sc, sched: Choices, cls, cfg):
         def add(check, outcome, expected, actual, **kw):
             rec["violations"].append({"site": dict(site, check=check, outcome=outcome, **kw), "features": dict(features), "expected": expected, "actual": actual})
 
+        # ---- (in one run in three the strategy goes first: whatever the library keeps between calls at
+        # module level then stems from the PREVIOUS run's data, not from this run's own baseline call on
+        # the same logical keys -- which would make stale state coincide with fresh state; seeded change C03-k)
+        pre = None
+        if fault is None and sc.get("strategy_first"):
+            ctxa = executor.SimContext(sched=sched, workers=st["workers"], cpu_count=st["cpu"], monitor=True, preempt=st.get("preempt", False))
+            pre = _execute(ds, lay, st, op, sort, ctxa, holder=holda)
+            probes.add("strategy_before_baseline")
         # ---- baseline ----
         ctx0 = executor.SimContext(sched=Choices(replay=[]), workers=1, cpu_count=4)
         base, _ = _execute(ds, None, gen.BASELINE_STRATEGY, op, sort, ctx0, holder=hold0)
@@ -270,8 +279,11 @@ def execute(sc, sched: Choices, cls, cfg):
                 add(check, kind, compare.short(ref[1]), d)
 
         if fault is None:
-            ctxa = executor.SimContext(sched=sched, workers=st["workers"], cpu_count=st["cpu"], monitor=True, preempt=st.get("preempt", False))
-            ra, info = _execute(ds, lay, st, op, sort, ctxa, holder=holda)
+            if pre is not None:
+                ra, info = pre
+            else:
+                ctxa = executor.SimContext(sched=sched, workers=st["workers"], cpu_count=st["cpu"], monitor=True, preempt=st.get("preempt", False))
+                ra, info = _execute(ds, lay, st, op, sort, ctxa, holder=holda)
             features["key_repr"] = info.get("repr", "?")
             judge("strategy_vs_baseline", ra, base)
             ctxb = executor.SimContext(sched=sched, workers=st["workers"], cpu_count=st["cpu"], preempt=st.get("preempt", False))
